@@ -219,6 +219,7 @@ func c04Scenarios(tier string) []*core.Scenario {
 	_ = thorough // both tiers: the full product takes about 20 s
 	scs = append(scs, mk("all_mnemonics_all_gaps", c04All, gaps, rule))
 	scs = append(scs, mk("far_gaps", []string{"JMP", "JE", "CALL", "JNLE"}, farGaps, rule))
+	scs = append(scs, c04RelaxScenario(tier))
 	// far jumps
 	segs := []int64{0, 1, 8, 0x10, 0xffff, 0x10000, 0x10008}
 	offs := []int64{0, 1, 0x1b, 0x7f, 0x80, 0xff, 0x100, 0x7fff, 0x8000, 0xffff, 0x10000, 0x7fffffff, 0x80000000, 0xffffffff, 0x100000000, 0x100000010}
